@@ -22,15 +22,27 @@ COMMON_ASSUMPTIONS = [
 ]
 
 
-def gather(tier: str, seed: int, no_corpus: bool = False):
-    units = common.extract_repo()
+NEED = {
+    "C01": ["EnumString"], "C12": ["EnumString"], "C18": ["EnumString"], "C16": ["EnumString"],
+    "C02": ["EnumString", "Display", "AsRefStr", "IntoStaticStr", "EnumMessage"],
+    "C03": ["Display", "AsRefStr", "AsStaticStr", "IntoStaticStr", "ToString", "VariantNames", "EnumVariantNames"],
+    "C11": ["EnumString", "Display", "AsRefStr", "AsStaticStr", "IntoStaticStr", "ToString", "VariantNames", "EnumVariantNames"],
+    "C17": ["Display"],
+    "C04": ["EnumIter", "EnumCount"], "C08": ["EnumIter", "EnumCount", "VariantNames", "EnumVariantNames", "VariantArray"],
+    "C06": ["FromRepr"], "C10": ["EnumTable"], "C13": ["EnumIs", "EnumTryAs"], "C14": ["EnumMessage"], "C15": ["EnumProperty"],
+    "C05": ["EnumIter"],
+}
+
+
+def gather(tier: str, seed: int, no_corpus: bool = False, need=None):
+    units = common.extract_repo(need)
     if not no_corpus:
         try:
             import corpus
         except ImportError:
             corpus = None
         if corpus is not None:
-            units = units + corpus.extract(tier, seed)
+            units = units + corpus.extract(tier, seed, need=need)
     infos = model.dedup(model.build(units))
     return units, infos
 
@@ -52,7 +64,7 @@ def run(prop: str, tier: str, seed: int, t0: float, replay=None, no_corpus=False
                 registry[name] = getattr(mod, name)
     if prop not in registry:
         raise common.ToolError("no check registered for " + prop)
-    units, infos = gather(tier, seed, no_corpus)
+    units, infos = gather(tier, seed, no_corpus, need=NEED.get(prop))
     ctx = {"tier": tier, "seed": seed, "units": units, "replay": replay}
     if replay:
         with open(replay) as f:
